@@ -404,6 +404,11 @@ class SandboxedEnvironment(Environment):
         # errors when proxying the call.
         if not __self.is_safe_callable(__obj):
             raise SecurityError(f"{__obj!r} is not safely callable")
+        # A bound str.format that was not obtained through getattr/getitem
+        # (for example one stored in the render data) is sandboxed here.
+        fmt = __self.wrap_str_format(__obj)
+        if fmt is not None:
+            __obj = fmt
         return __context.call(__obj, *args, **kwargs)
 
 
